@@ -29,7 +29,7 @@ RULE = (
     "(source values, source shape, z, each of the five profiles, domain, levels scalar/list, modes, meas_pt, background, footprint "
     "flag, analytic flag, halo None / explicit-equal-to-default / other / 0, precision, last-digit changes of meas_pt and Kz) plus generated ordered level selections of 1..4 levels. Model: memo of uncached results; map entry "
     "file -> (request, intact). Invariants after every step: a cached solve returns exactly the uncached result (array_equal, "
-    "dtypes, grids); a request whose entry file is intact is a hit with no put; no solve raises, whatever files are damaged. "
+    "dtypes, grids); a request that was solved with the cache attached (and whose entry was not damaged or cleared since) is a hit with no put - also when the solve had to repair a damaged entry; no solve raises, whatever files are damaged. "
     "Enumerated part: for each request kind a stored entry is truncated at sampled (quick) or every (thorough) byte offset and "
     "solved again. One real second process pre-populates a directory that the parent then reads. Non-trivial = history with a "
     "store followed by a different request, or a file fault followed by a solve; distinct = canonical JSON of the step list."
@@ -180,6 +180,7 @@ class History:
         self.log = []
         self.cache = _recording_cache(self.dir, self.log)
         self.files = {}  # entry file name -> {"req": index, "intact": bool}
+        self.hot = set()  # requests solved with the cache attached since the last damage / clear: the next one must hit
         self.steps = []
         self.flags = set()
         self.stored_then_other = False
@@ -217,6 +218,7 @@ class History:
                 f.truncate(max(cut, 0))
             if name in self.files:
                 self.files[name]["intact"] = False
+            self.hot.clear()  # several requests may legitimately share one entry: after damage expect nothing until re-solved
             self._pending_fault = True
             self.flags.add(kind)
             return []
@@ -232,6 +234,7 @@ class History:
             except Exception as e:
                 return [f"cache.clear() raised {type(e).__name__}: {e}"]
             self.files = {n: v for n, v in self.files.items() if os.path.exists(os.path.join(self.dir, n))}
+            self.hot.clear()
             left = self.entries()
             self.flags.add("clear")
             if left:
@@ -242,8 +245,8 @@ class History:
     def _solve(self, i):
         name, req = REQUESTS[i]
         fails = []
-        expect_hit = req["footprint"] and any(
-            v["req"] == i and v["intact"] and os.path.exists(os.path.join(self.dir, n)) for n, v in self.files.items())
+        expect_hit = req["footprint"] and (i in self.hot or any(
+            v["req"] == i and v["intact"] and os.path.exists(os.path.join(self.dir, n)) for n, v in self.files.items()))
         del self.log[:]
         try:
             got = _solve(req, cache=self.cache)
@@ -262,7 +265,12 @@ class History:
                          f"(log {self.log}; halo argument {req['halo']!r})")
         for p in puts:
             for n in p[1]:
+                # a file rewritten for request i no longer vouches for the request that owned it before
+                if n in self.files and self.files[n]["req"] != i:
+                    self.hot.discard(self.files[n]["req"])
                 self.files[n] = {"req": i, "intact": True}
+        if req["footprint"] and not fails:
+            self.hot.add(i)  # solved with the cache attached: an identical repeat must now be served from it
         if req["footprint"] and not hit and not puts:
             fails.append(f"solve({name}) missed the cache but stored nothing (log {self.log})")
         if self._last_put_req is not None and self._last_put_req != i and req["footprint"]:
